@@ -124,6 +124,9 @@ structure Input where
   robofab : Robofab := {}
   libKeys : List String := []       -- the other keys of lib.plist
   feaFile : Option String := none   -- a features.fea next to it
+  /-- `DataRequest::lib` / `DataRequest::features` of the load (both true for `Font::load`) -/
+  reqLib : Bool := true
+  reqFeatures : Bool := true
   deriving Inhabited
 
 structure Output where
@@ -133,12 +136,16 @@ structure Output where
   formatVersion : Nat
   deriving Repr
 
-/-- `Font::load_impl`, the parts that concern font info, features and lib -/
+/-- `Font::load_impl`, the parts that concern font info, features and lib.  The request decides which
+    *files* are read into `lib` and `features`; the font info is always loaded, and the robofab data of a
+    format-1 lib is converted whenever `lib.plist` exists (it is re-read for the conversion), whatever
+    the request says — including the feature text, which replaces `features` when it is not empty. -/
 def load (i : Input) : Except LoadErr Output :=
   match fromFile i.fmt i.attrs with
   | .error e => .error e
   | .ok info =>
-    let fea0 := i.feaFile.getD ""
+    let fea0 := if i.reqFeatures then i.feaFile.getD "" else ""
+    let lib0 := if i.reqLib then i.libKeys else []
     if i.fmt = 1 && i.hasLib then
       let r := i.robofab
       let text := featureText r
@@ -149,8 +156,8 @@ def load (i : Input) : Except LoadErr Output :=
       | .error e => .error e
       | .ok info' =>
         .ok { info := info', features := if text.isEmpty then fea0 else text,
-              libKeys := i.libKeys.filter (fun k => !Gen.robofabRemoved.contains k), formatVersion := 3 }
+              libKeys := lib0.filter (fun k => !Gen.robofabRemoved.contains k), formatVersion := 3 }
     else
-      .ok { info := info, features := fea0, libKeys := i.libKeys, formatVersion := 3 }
+      .ok { info := info, features := fea0, libKeys := lib0, formatVersion := 3 }
 
 end C14
